@@ -152,7 +152,8 @@ class Passive(Compiler):
             modes = [modes_label.ind for modes_label in operations.reg]
             used_modes.append(modes)
 
-        used_modes = list(set(item for sublist in used_modes for item in sublist))
+        # sorted, so that the consecutive indices below follow the order of ``ord_reg``
+        used_modes = sorted(set(item for sublist in used_modes for item in sublist))
 
         # dictionary mapping the used modes to consecutive non-negative integers
         dict_indices = {used_modes[i]: i for i in range(len(used_modes))}
